@@ -144,4 +144,50 @@ VerifyDemand(mut) == IF mut = "none" THEN "accept" ELSE IF mut \in OpenMuts THEN
 VerifyOK(mut, accepted) == CASE VerifyDemand(mut) = "accept" -> accepted
                              [] VerifyDemand(mut) = "reject" -> ~accepted
                              [] OTHER -> TRUE
+
+----------------------------------------------------------------------------
+(* The verifier as an OBJECT WITH A HISTORY.  ct.SignatureVerifier is created once per log key and
+   then asked to verify many objects.  The statement makes the verdict a function of the presented
+   object alone ("accepts an SCT/STH exactly when its signature by the log key covers that input"),
+   so the abstract verifier has no state: whatever was verified before - accepted, rejected before
+   hashing, rejected after hashing - the k-th verdict is the verdict of the k-th operation.
+
+   An operation is [obj, mut], relative to the verifier's key K:
+     none          genuine object signed by K
+     ts ... root   one signed field of the presented object differs from what was signed
+     sig-flip, sig-empty, sig-trailing   the signature value is altered / empty / followed by bytes
+     alg-sig       signature algorithm id of the other key type
+     alg-unsup     a signature algorithm id the verifier does not implement (dsa)
+     alg-hash      hash algorithm id other than the one used
+     ver           version other than v1 (the signature input cannot be built)
+     foreign-key   genuine object of ANOTHER log with a key of the same type
+     foreign-type  genuine object of another log whose key has the other type              *)
+HObjs == <<"sct-cert", "sct-precert", "sth">>
+HMuts(obj) ==
+  IF obj = "sth"
+  THEN <<"none", "ts", "size", "root", "sig-flip", "sig-empty", "sig-trailing", "alg-sig", "alg-unsup",
+         "alg-hash", "ver", "foreign-key", "foreign-type">>
+  ELSE <<"none", "ts", "ext-len", "cert-byte", "etype", "sig-flip", "sig-empty", "sig-trailing", "alg-sig",
+         "alg-unsup", "alg-hash", "ver", "foreign-key", "foreign-type">>
+
+RECURSIVE FlatSeq(_)
+FlatSeq(ss) == IF ss = <<>> THEN <<>> ELSE Head(ss) \o FlatSeq(Tail(ss))
+\* the operation alphabet; an operation is referred to by its index in this sequence
+VerifierOps == FlatSeq([o \in 1..Len(HObjs) |->
+                          [m \in 1..Len(HMuts(HObjs[o])) |-> [obj |-> HObjs[o], mut |-> HMuts(HObjs[o])[m]]]])
+
+\* a representative sub-alphabet for longer histories: the three genuine objects, failures before hashing
+\* (alg-hash, ver), failures after hashing (field, signature, algorithm, foreign key), one open case
+ReducedOps == { i \in 1..Len(VerifierOps) :
+                  \/ VerifierOps[i].mut = "none"
+                  \/ VerifierOps[i].obj = "sct-cert" /\ VerifierOps[i].mut \in {"cert-byte", "sig-flip", "alg-unsup", "alg-hash", "foreign-type"}
+                  \/ VerifierOps[i].obj = "sth" /\ VerifierOps[i].mut \in {"root", "ver"} }
+
+\* history independence: the verdict demanded for an operation after any history
+HistoryDemand(hist, op) == VerifyDemand(op.mut)
+\* ids: the operations applied, in order, to ONE verifier object; accs: its verdicts
+HistoryOK(ids, accs) == /\ Len(ids) = Len(accs)
+                        /\ \A k \in 1..Len(ids) :
+                             LET d == HistoryDemand(SubSeq(ids, 1, k - 1), VerifierOps[ids[k]])
+                             IN  (d = "accept" => accs[k]) /\ (d = "reject" => ~accs[k])
 =============================================================================
